@@ -102,6 +102,10 @@ def sink_calls(fn, aliases: Dict[str, str], netattrs=()) -> List[ast.Call]:
         elif r in netobjs and isinstance(f, ast.Attribute):
             if last in PURE_ATTRS:
                 continue
+            if isinstance(f.value, ast.Call):
+                # a method of what a network call RETURNED (opener.open(req).read()): reading the response, the inner
+                # call is the sink
+                continue
             out.append(n)
         elif isinstance(f, ast.Attribute) and isinstance(f.value, ast.Attribute) and f.value.attr in netattrs and last not in PURE_ATTRS:
             out.append(n)
